@@ -9,12 +9,12 @@ MANIFEST = dict(
          "end_expr/unit tables regenerated from lexer/mod.rs and the Unicode classes dumped from the toolchain's std on every run): "
          "tokens_tile, gaps_are_whitespace, reject_has_errors, lex_fuel_suffices for all strings by induction on the lexing loop; "
          "relex_counterexample (`true|x`) refutes the full re-lex statement and relex_partial proves it for single-character "
-         "controls, `@`, newlines and multi-character operators (ProvedClass in Props/C17.lean). "
+         "controls, `@`, newlines, multi-character operators, comments and doc comments (ProvedClass in Props/C17.lean). "
          "Tied to the code by comparing lex_source with the model (kinds, values, byte spans, accept/reject) on ALL strings up to "
          "length 4 (quick) / 5 (thorough) over 28 lexically significant characters and on seeded random fragment strings; the "
          "property itself (tiling, whitespace gaps, re-lex of every token slice) is also checked directly on lex_source's output.",
     note="re-lex is false on the unchanged tree for identifiers spelled like a keyword/true/false/null (known finding "
-         "relex-keywordlike-ident); re-lex of identifiers, keywords, literals, parameters, interpolations, comments, ranges and "
+         "relex-keywordlike-ident); re-lex of identifiers, keywords, literals, parameters, interpolations, ranges and "
          "line wraps is NOT proved in Lean (relex_excluding_keywordlike is kept as a def): it is covered by the enumeration only "
          "(tested-not-proved, listed in the evidence). Float values are compared as f64 (model keeps the normalised text).",
     technique="Lean 4 proof over regenerated lexer tables + exhaustive short-string correspondence", ref="4/C17")
@@ -353,9 +353,8 @@ def run(ctx):
     }
     ctx.coverage_extra["timing_s"] = {"vh": round(tot["vh_s"], 1), "drv": round(tot["drv_s"], 1)}
     ctx.coverage_extra["relex_theorems_in_props"] = relex_proved_classes()
-    ctx.coverage_extra["relex_proved_classes"] = ["Control", "Annotate", "NewLine", "ArrowThin..Pow (multi-char operators)"]
-    ctx.coverage_extra["relex_tested_not_proved"] = ["Ident (not keyword-like)", "Keyword", "Literal:*", "Param", "Interpolation", "Comment",
-                                                      "DocComment", "Range", "LineWrap"]
+    ctx.coverage_extra["relex_proved_classes"] = ["Control", "Annotate", "NewLine", "ArrowThin..Pow (multi-char operators)", "Comment", "DocComment"]
+    ctx.coverage_extra["relex_tested_not_proved"] = ["Ident (not keyword-like)", "Keyword", "Literal:*", "Param", "Interpolation", "Range", "LineWrap"]
 
 
 def relex_proved_classes():
